@@ -3,6 +3,7 @@ Header lemmas of the codec model: for the two documented layouts (pinned by `Val
 `buildHeader` produces the documented bytes and every accessor reads back what `Pack` stored.
 -/
 import Fatchoy.Lemmas.CodecBasic
+import Fatchoy.Lemmas.Crc32
 namespace Fatchoy.Codec
 open Fatchoy.Crc32
 set_option linter.unusedSimpArgs false
@@ -31,7 +32,7 @@ theorem buildHeader_v1 {F : Fmt} (hv : ValidV1 F) (p : Pkt) (nref n : Nat) (refs
   obtain ⟨_, hs, hp, hc, _, hcov, _⟩ := hv
   unfold buildHeader
   rw [hs, hp, hc, hcov]
-  simp [packFields, v1PackL, putAt, bePut, zeros, List.replicate, packVal, preV1, frameCrc]
+  simp [packFields, v1PackL, putAt, bePut, zeros, List.replicate, packVal, preV1, frameCrc, crc32_table_eq]
 
 theorem buildHeader_v2 {F : Fmt} (hv : ValidV2 F) (p : Pkt) (nref n : Nat) (refsB body : Bytes) :
     buildHeader F p nref n refsB body =
@@ -40,7 +41,7 @@ theorem buildHeader_v2 {F : Fmt} (hv : ValidV2 F) (p : Pkt) (nref n : Nat) (refs
   obtain ⟨_, hs, hp, hc, _, hcov, _⟩ := hv
   unfold buildHeader
   rw [hs, hp, hc, hcov]
-  simp [packFields, v2PackL, putAt, bePut, zeros, List.replicate, packVal, preV2, frameCrc]
+  simp [packFields, v2PackL, putAt, bePut, zeros, List.replicate, packVal, preV2, frameCrc, crc32_table_eq]
 
 theorem field_v1 (n t f s c k : Nat) :
     let hdr := preV1 n t f s c ++ bePut 4 k
